@@ -162,6 +162,13 @@ def _finish(mod, prop, tier, base, cfg, nshards, results, shard_done, harness_er
         if d.get("sample") is not None and len(samples) < 5 and d.get("role", 0) == 0:
             samples.append(d["sample"])
 
+    if not samples:
+        for d in results:
+            if d.get("role", 0) == 0 and d.get("seed", -1) >= 0:
+                samples.append({"seed": d["seed"], "note": "no check-level sample was emitted in this run; "
+                                "this is the first explored seed with its counters",
+                                "stats": d.get("stats"), "evals": d.get("evals")})
+                break
     os.makedirs(os.path.join(VERIF, "replays"), exist_ok=True)
     new_lines, known_lines, seen = [], [], set()
     for v in viols:
